@@ -181,7 +181,9 @@ def discretize_arc(points, close=False, scale=1.0):
     count = np.max([count_a, count_l])
     # force at LEAST 4 points for the arc
     # otherwise the endpoints will diverge
-    count = np.clip(count, 4, np.inf)
+    # and cap the count like the other curves: an arc with a huge
+    # radius would otherwise ask for billions of points
+    count = np.clip(count, 4, res.max_sections * len(points))
     count = int(np.ceil(count))
 
     V1 = util.unitize(points[0] - center)
